@@ -271,7 +271,7 @@ pub fn run(tier: &str) -> i32 {
     let mut evals: Vec<(usize, Config)> = vec![];
     for (i, a) in all.iter().enumerate() {
         let cfgs: Vec<Config> = if a.structs && (thorough || a.id.starts_with("struct|s1|") || a.id.starts_with("roles|roles=VHBFNW") || a.id.starts_with("struct|bool") || a.id.starts_with("struct|rt1")) {
-            if thorough || hash64(&a.id) % 5 == 0 || a.id.starts_with("roles|") || a.id.starts_with("struct|bool") { Config::derive_space() } else { base_configs() }
+            if thorough || hash64(&a.id) % 7 == 0 || a.id.starts_with("roles|") || a.id.starts_with("struct|bool") { Config::derive_space() } else { base_configs() }
         } else {
             base_configs()
         };
